@@ -39,7 +39,16 @@ WlLists(lv) ==
     [] lv = "mid"  -> {<<0>>, <<1, 2>>, <<2, 1>>, <<2, 0, 1>>, <<2, 2, 1>>, <<9, 1>>}
     [] OTHER       -> {<<0, 1>>, <<1, 0>>, <<1, 0, 1>>, <<9, 0>>}
 
+\* iterator protocols: up to two non-consuming steps, then one consuming step
+ProtoPre  == {100, 200, 201, 301, 400}                  \* next, nth(0), nth(1), by_ref().take(1), size_hint
+ProtoLast == {500, 601, 602, 701, 702, 800, 900}        \* collect, skip(1), skip(2), step_by(1), step_by(2), last, count
+Protocols == {<<z>> : z \in ProtoLast} \cup {<<x, z>> : x \in ProtoPre, z \in ProtoLast}
+             \cup {<<x, y, z>> : x \in ProtoPre, y \in ProtoPre, z \in ProtoLast}
+ProtoOps == {O("iterp", w, 1, 0, pr) : w \in 0..3, pr \in Protocols}
+
 Alpha(lv, nf, nt, lastop) ==
+  IF lv = "proto" THEN ProtoOps ELSE
+  (IF lv \in {"mid", "min"} THEN {O("iterp", 0, 1, 0, <<100, 601>>)} ELSE {O("iterp", 0, 1, 0, <<100, 200, 702>>), O("iterp", 3, 2, 0, <<100, 601>>)}) \cup
   {O0("view"), O0("toowned"), O0("single")}
   \cup {O("split", ab[1], ab[2], p, <<>>) : ab \in SplitRatios(lv), p \in (IF lv = "min" THEN {0, 1} ELSE {0, 1})}
   \cup {O("shuffle", s, 0, 0, <<>>) : s \in (IF lv = "full" THEN {1, 2} ELSE {1})}
